@@ -59,7 +59,11 @@ CmpNN(a, b, c) ==
     [] a.t = "q" /\ b.t = "q" -> Sign(a.n * b.d - b.n * a.d)
     [] a.t = "q" /\ b.t = "i" -> Sign(a.n - b.v * a.d)
     [] a.t = "i" /\ b.t = "q" -> Sign(a.v * b.d - b.n)
-    [] a.t = "f" /\ b.t = "f" -> Sign(a.v - b.v)
+    [] a.t = "f" /\ b.t = "f" -> Sign(a.v - b.v)          \* "f" = a reported value scaled by 10^4
+    [] a.t = "f" /\ b.t = "i" -> Sign(a.v - b.v * 10000)
+    [] a.t = "i" /\ b.t = "f" -> Sign(a.v * 10000 - b.v)
+    [] a.t = "f" /\ b.t = "q" -> Sign(a.v * b.d - b.n * 10000)
+    [] a.t = "q" /\ b.t = "f" -> Sign(a.n * 10000 - b.v * a.d)
     [] OTHER -> Assert(FALSE, <<"comparison across families is outside the interpreted fragment", a, b>>)
 
 \* total order used by ORDER BY / MIN / MAX / DISTINCT: NULL first
